@@ -23,7 +23,7 @@ impl Monitor for C06 {
         "exploration"
     }
     fn num_cases(&self, tier: Tier) -> u64 {
-        tier.pick(1600, 40_000)
+        tier.pick(12_800, 400_000)
     }
     fn num_realsize_cases(&self, tier: Tier) -> u64 {
         tier.pick(0, 12)
